@@ -98,6 +98,8 @@ template <class F> bool died_on_segv(F f) {
 // ---- probe in a child: does the call survive?  (UBSan aborts on a member call through a NULL record before any signal could be
 // caught, so the "bookkeeping record allocation fails" fault is tried in a forked copy first.)  The answer is cached per process
 // and per call site: 0 unknown, 1 dies, 2 survives -- once it is known to survive, the fault runs in-process at full speed.
+bool g_threadsafe;                // the current ON window uses turnOnThreadSafeNewDeleteOverloads()
+int g_nothrow_probe[2][2];        // [thread-safe][new / new[]]: does a nothrow new whose request cannot be satisfied come back at all?
 int g_record_fault_probe[2];      // [0] allocMemory, [1] reallocMemory
 template <class F> bool child_dies(F f) {
     fflush(stderr);
@@ -366,6 +368,16 @@ struct Interp {
                 desc("%s(%zu) +fault(record) -> dies", what, size);
                 bad(K_NODE, "%s(%zu): the allocator returned NULL for the bookkeeping record and the detector used the NULL record (the call dies; probed in a forked copy)", what, size); return; }
         }
+        if ((o.kind == O_NEW_NT || o.kind == O_NEWARR_NT) && (f_data || size > SURE)) {
+            // a nothrow new that cannot be satisfied: an exception leaving the noexcept operator is std::terminate, which no handler can
+            // turn back into a result - so the first such call of each flavour is tried in a forked copy (cached per process)
+            int& probe = g_nothrow_probe[g_threadsafe][o.kind == O_NEWARR_NT];
+            if (probe == 0) probe = child_dies(call) ? 1 : 2;
+            if (probe == 1) { g_seam.disarm();
+                desc("%s(%zu)%s -> the process dies", what, size, f_data ? " +fault(data)" : "");
+                bad("C05:nothrow-new-dies-instead-of-returning-null", "%s(%zu) with the %s overloads: the request cannot be satisfied (%s) and the call does not return NULL - the process dies (std::terminate / abort; probed in a forked copy)",
+                    what, size, g_threadsafe ? "thread-safe" : "default", f_data ? "the allocator answers NULL" : "more than the underlying allocator hands out"); return; }
+        }
         if ((f_data || f_node) && src) crashed = died_on_segv(call); else call();
         bool hit_data = g_seam.hit_data, hit_node = g_seam.hit_node, refused = g_seam.refused, shortreq = g_seam.short_request; size_t req = g_seam.last_req;
         g_seam.disarm();
@@ -492,10 +504,12 @@ struct Interp {
 };
 
 struct OnWindow {
-    OnWindow() {
+    explicit OnWindow(bool threadsafe = false) {
         g_reporter->calls = 0;
         setCurrentMallocAllocator(g_am); setCurrentNewAllocator(g_an); setCurrentNewArrayAllocator(g_aa);
-        MemoryLeakWarningPlugin::turnOnDefaultNotThreadSafeNewDeleteOverloads();
+        // the same script means the same in both flavours of the overloads (single-threaded use of the mutex-taking ones; concurrency is C10's)
+        if (threadsafe) MemoryLeakWarningPlugin::turnOnThreadSafeNewDeleteOverloads();
+        else MemoryLeakWarningPlugin::turnOnDefaultNotThreadSafeNewDeleteOverloads();
     }
     ~OnWindow() {
         MemoryLeakWarningPlugin::turnOffNewDeleteOverloads();
@@ -562,13 +576,15 @@ extern "C" int verif_case(const uint8_t* data, size_t size) {
     g_bad = false; g_sig[0] = g_msg[0] = 0; g_desc_n = 0; g_desc[0] = 0; memset(g_h, 0, sizeof g_h); memset(g_x, 0, sizeof g_x);
     reset_underlying();
     static Op ops[MAXOPS]; int nops = 0;
-    uint32_t mode = r.below(3);
+    uint32_t first = r.below(6), mode = first % 3;      // 0..2: the three modes with the default overloads (as before); 3..5: the same with the thread-safe overloads
+    g_threadsafe = first >= 3;
     decode(r, ops, nops, mode);
     static Interp in; in = Interp();
     {
-        OnWindow on;
+        OnWindow on(g_threadsafe);
         in.run(ops, nops);
     }
+    verif::cls(g_threadsafe ? "overloads:thread-safe" : "overloads:default");
     if (g_bad) { g_dirty = true; reset_underlying(); }
     verif::cls(mode == 0 ? "mode:size-lattice" : mode == 1 ? "mode:entry-point-script" : "mode:fault-sequence");
     for (int i = 0; i < H_NCLS; i++) if (g_h[i]) verif::cls(h_name[i]);
@@ -581,7 +597,7 @@ extern "C" int verif_case(const uint8_t* data, size_t size) {
 
 // deterministic reproducers of the listed findings (1 = still there)
 static int repro(const Op& first, const Op* second, const char* sig) {
-    reset_underlying(); g_bad = false;
+    reset_underlying(); g_bad = false; g_threadsafe = false;
     static Interp in; in = Interp();
     Op ops[2] = { first, second ? *second : Op{} };
     { OnWindow on; in.run(ops, second ? 2 : 1); }
